@@ -9,10 +9,26 @@
    returns the OLD head node after copying the NEXT node's data into it, so
    the value get_work hands to its caller is the name of the pushed item.
 
-   Op language: a thread's program is the list of items it pushes (op =
-   "Push item").  The documented protocol is part of the control state: when a
-   push returns WORK_QUEUE_START_WORKING the thread calls work_queue_get_work
-   until it returns WORK_QUEUE_EMPTY, then goes on with its next push.
+   Op language: a thread's program is the list of its pushes, op = Push item
+   or PushFF item (a push marked "fast-forward", see below).  The documented
+   protocol is part of the control state: when a push returns
+   WORK_QUEUE_START_WORKING the thread calls work_queue_get_work until it
+   returns WORK_QUEUE_EMPTY, then goes on with its next push.
+
+   Fast-forward (pc GFfwd).  The counters are only rebased when the queue
+   momentarily runs dry, so in a session that never drains they grow without
+   bound; no test can afford 2^32 real pushes.  A push marked PushFF that
+   returns START_WORKING is followed by ONE extra step of the fresh worker,
+   before its first get_work: it adds the constant FFAMT = 2^32 - 3 to BOTH
+   in_count and out_count.  This is exactly the state the public API reaches
+   when the fresh worker performs FFAMT times (push one more item; get one
+   item): in_count = i + FFAMT, out_count = FFAMT, the same number of queued
+   items -- modulo the identity of the queued items.  It is done only by the
+   worker itself, between its own calls, which is why it cannot race with the
+   worker's own (non-atomic) read-modify-write of out_count; in_count is only
+   ever changed by atomic read-modify-writes, and the step is one atomic step.
+   A PushFF that returns QUEUED does nothing special.  The step emits the
+   harness event  tid 2 919 FFAMT  (rt_point(2, K_EV, FFAMT) in rt/h_wq.c).
 
    in_count / out_count are int64 in C and Z here (no 2^63 wrap: stated guard). *)
 From Coq Require Import List ZArith Lia Bool Arith.
@@ -25,6 +41,7 @@ Inductive pcT :=
   | PNext    (* mpsc push: new_node->next = NULL              *)
   | PXchg    (* mpsc push: prev = exchange(&tail, new_node)   *)
   | PLink    (* mpsc push: prev->next = new_node; push returns *)
+  | GFfwd    (* fast-forward of the fresh worker: both counters += FFAMT *)
   (* work_queue_get_work: mpsc trypop *)
   | GHead    (* prev_head = f->head                           *)
   | GNext    (* prev_head_next = prev_head->next              *)
@@ -43,8 +60,16 @@ Inductive pcT :=
 
 (* flag = this thread has been designated the worker (its add_and_fetch saw
    in_count become 1) and has not yet been told EMPTY *)
+Inductive op := Push (a : nat) | PushFF (a : nat).
+Definition item (o : op) : nat := match o with Push a | PushFF a => a end.
+Definition marked (o : op) : bool := match o with Push _ => false | PushFF _ => true end.
+
+(* 2^32 - 3, a Z constant *)
+Definition FFAMT : Z := 4294967293%Z.
+
+(* mk = the current push is marked fast-forward *)
 Record tst := { pc : pcT; arg : nat; flag : bool; prev : nat; ph : nat; pn : nat;
-                rd : nat; oc : Z; prog : list nat; opi : nat }.
+                rd : nat; oc : Z; prog : list op; opi : nat; mk : bool }.
 
 Record st := { head : nat; tail : nat; inc : Z; outc : Z;
                next : nat -> nat; data : nat -> nat;
@@ -55,14 +80,14 @@ Record st := { head : nat; tail : nat; inc : Z; outc : Z;
 Definition next_op (T : tst) : tst :=
   match prog T with
   | [] => {| pc := Fin; arg := arg T; flag := false; prev := prev T; ph := ph T; pn := pn T;
-             rd := rd T; oc := oc T; prog := []; opi := opi T |}
-  | a :: r => {| pc := PAdd; arg := a; flag := false; prev := 0; ph := 0; pn := 0;
-                 rd := 0; oc := 0%Z; prog := r; opi := S (opi T) |}
+             rd := rd T; oc := oc T; prog := []; opi := opi T; mk := false |}
+  | o :: r => {| pc := PAdd; arg := item o; flag := false; prev := 0; ph := 0; pn := 0;
+                 rd := 0; oc := 0%Z; prog := r; opi := S (opi T); mk := marked o |}
   end.
 
 Definition with_pc (T : tst) (p : pcT) : tst :=
   {| pc := p; arg := arg T; flag := flag T; prev := prev T; ph := ph T; pn := pn T;
-     rd := rd T; oc := oc T; prog := prog T; opi := opi T |}.
+     rd := rd T; oc := oc T; prog := prog T; opi := opi T; mk := mk T |}.
 
 Definition set_thr (s : st) (t : nat) (x : tst) : st :=
   {| head := head s; tail := tail s; inc := inc s; outc := outc s;
@@ -88,7 +113,7 @@ Definition step (s : st) (t : nat) : st * list Z :=
           next := next s; data := data s;
           thr := upd (thr s) t
                    {| pc := PNext; arg := arg T; flag := (inc s =? 0)%Z; prev := prev T; ph := ph T;
-                      pn := pn T; rd := rd T; oc := oc T; prog := prog T; opi := opi T |};
+                      pn := pn T; rd := rd T; oc := oc T; prog := prog T; opi := opi T; mk := mk T |};
           nthr := nthr s |},
        ev t 2 55 (inc s))
   | PNext =>
@@ -101,24 +126,30 @@ Definition step (s : st) (t : nat) : st * list Z :=
           next := next s; data := data s;
           thr := upd (thr s) t
                    {| pc := PLink; arg := arg T; flag := flag T; prev := tail s; ph := ph T;
-                      pn := pn T; rd := rd T; oc := oc T; prog := prog T; opi := opi T |};
+                      pn := pn T; rd := rd T; oc := oc T; prog := prog T; opi := opi T; mk := mk T |};
           nthr := nthr s |},
        evn t 1 43 (tail s))
   | PLink =>
       ({| head := head s; tail := tail s; inc := inc s; outc := outc s;
           next := upd (next s) (prev T) (arg T); data := data s;
-          thr := upd (thr s) t (if flag T then with_pc T GHead else next_op T);
+          thr := upd (thr s) t (if flag T then with_pc T (if mk T then GFfwd else GHead)
+                                else next_op T);
           nthr := nthr s |},
        evn t (nextloc (prev T)) 19 (arg T) ++ pret t T (if flag T then 1 else 0)%Z)
+  | GFfwd =>
+      ({| head := head s; tail := tail s; inc := (inc s + FFAMT)%Z; outc := (outc s + FFAMT)%Z;
+          next := next s; data := data s;
+          thr := upd (thr s) t (with_pc T GHead); nthr := nthr s |},
+       ev t 2 919 FFAMT)
   | GHead =>
       (set_thr s t {| pc := GNext; arg := arg T; flag := flag T; prev := prev T; ph := head s;
-                      pn := pn T; rd := rd T; oc := oc T; prog := prog T; opi := opi T |},
+                      pn := pn T; rd := rd T; oc := oc T; prog := prog T; opi := opi T; mk := mk T |},
        evn t 0 9 (head s))
   | GNext =>
       let n := next s (ph T) in
       (set_thr s t {| pc := match n with O => GCmpO | S _ => GSetH end;
                       arg := arg T; flag := flag T; prev := prev T; ph := ph T;
-                      pn := n; rd := rd T; oc := oc T; prog := prog T; opi := opi T |},
+                      pn := n; rd := rd T; oc := oc T; prog := prog T; opi := opi T; mk := mk T |},
        evn t (nextloc (ph T)) 9 n)
   | GSetH =>
       ({| head := pn T; tail := tail s; inc := inc s; outc := outc s;
@@ -127,7 +158,7 @@ Definition step (s : st) (t : nat) : st * list Z :=
        evn t 0 19 (pn T))
   | GData =>
       (set_thr s t {| pc := GCopy; arg := arg T; flag := flag T; prev := prev T; ph := ph T;
-                      pn := pn T; rd := data s (pn T); oc := oc T; prog := prog T; opi := opi T |},
+                      pn := pn T; rd := data s (pn T); oc := oc T; prog := prog T; opi := opi T; mk := mk T |},
        evn t (dataloc (pn T)) 9 (data s (pn T)))
   | GCopy =>
       ({| head := head s; tail := tail s; inc := inc s; outc := outc s;
@@ -136,7 +167,7 @@ Definition step (s : st) (t : nat) : st * list Z :=
        evn t (dataloc (ph T)) 19 (rd T))
   | GOutR =>
       (set_thr s t {| pc := GOutW; arg := arg T; flag := flag T; prev := prev T; ph := ph T;
-                      pn := pn T; rd := rd T; oc := outc s; prog := prog T; opi := opi T |},
+                      pn := pn T; rd := rd T; oc := outc s; prog := prog T; opi := opi T; mk := mk T |},
        ev t 3 9 (outc s))
   | GOutW =>
       ({| head := head s; tail := tail s; inc := inc s; outc := (oc T + 1)%Z;
@@ -145,14 +176,14 @@ Definition step (s : st) (t : nat) : st * list Z :=
        ev t 3 19 (oc T + 1)%Z ++ gret t T (rd T))
   | GCmpO =>
       (set_thr s t {| pc := GCmpI; arg := arg T; flag := flag T; prev := prev T; ph := ph T;
-                      pn := pn T; rd := rd T; oc := outc s; prog := prog T; opi := opi T |},
+                      pn := pn T; rd := rd T; oc := outc s; prog := prog T; opi := opi T; mk := mk T |},
        ev t 3 9 (outc s))
   | GCmpI =>
       (set_thr s t (with_pc T (if (oc T =? inc s)%Z then GOldR else GHead)),
        ev t 2 9 (inc s))
   | GOldR =>
       (set_thr s t {| pc := GZero; arg := arg T; flag := flag T; prev := prev T; ph := ph T;
-                      pn := pn T; rd := rd T; oc := outc s; prog := prog T; opi := opi T |},
+                      pn := pn T; rd := rd T; oc := outc s; prog := prog T; opi := opi T; mk := mk T |},
        ev t 3 9 (outc s))
   | GZero =>
       ({| head := head s; tail := tail s; inc := inc s; outc := 0%Z;
@@ -170,14 +201,14 @@ Definition step (s : st) (t : nat) : st * list Z :=
 Definition status_of (s : st) (t : nat) : status :=
   if t <? nthr s then match pc (thr s t) with Fin => SDone | _ => SReady end else SDone.
 
-Definition idle_thread (p : list nat) : tst :=
+Definition idle_thread (p : list op) : tst :=
   next_op {| pc := Fin; arg := 0; flag := false; prev := 0; ph := 0; pn := 0; rd := 0;
-             oc := 0%Z; prog := p; opi := 0 |}.
+             oc := 0%Z; prog := p; opi := 0; mk := false |}.
 
 Definition stub : nat := 1.
 
 (* work_queue_init: counters 0, head = tail = the stub, whose next is NULL *)
-Definition init (progs : list (list nat)) : st :=
+Definition init (progs : list (list op)) : st :=
   {| head := stub; tail := stub; inc := 0%Z; outc := 0%Z;
      next := fun _ => 0; data := fun n => n;
      thr := fun t => idle_thread (nth t progs []); nthr := length progs |}.
@@ -186,7 +217,9 @@ Definition M : machine :=
   {| mstate := st; mstep := step; mstatus := status_of; mthreads := nthr |}.
 
 (* ---------- executable entry point for the correspondence run ---------- *)
-Definition dec_op (p : Z * Z) : nat := Z.to_nat (snd p).
+(* (1, item) = push, (2, item) = push marked fast-forward *)
+Definition dec_op (p : Z * Z) : op :=
+  if (fst p =? 2)%Z then PushFF (Z.to_nat (snd p)) else Push (Z.to_nat (snd p)).
 
 Definition run_case (l : list Z) : list Z :=
   match decode_case l with
